@@ -159,6 +159,23 @@ Definition peek (b : bytes) (h : handle) (k : bytes) : res value :=
 Definition read_all (b : bytes) (h : handle) : res (list entry) :=
   do l <- read_all_values_raw b (Z.of_N (used h)); Ok (drop_pos l).
 
+(* MmapedDict.close(): self._m.close(); self._f.close().  Neither statement changes the file: close() has NO file
+   effect.  It is an operation of its own because it is not only run by the owner of the file: after fork() the
+   child's first metric operation (values.py, pid change) closes every handle it inherited, while the parent is still
+   a live writer of the same file through its own mapping (wop / wrun_from below; C11_close_keeps_file). *)
+Definition close_effects (h : handle) : list effect := [].
+
+(* 'gauge', 'live' *)
+Definition S_GAUGE : bytes := [103; 97; 117; 103; 101].
+Definition S_LIVE : bytes := [108; 105; 118; 101].
+Fixpoint starts_with (p s : bytes) : bool :=
+  match p, s with
+  | [], _ => true
+  | a :: p', b :: s' => (a =? b) && starts_with p' s'
+  | _ :: _, [] => false
+  end.
+Definition vanish_tolerated (typ p1 : bytes) : bool := keq typ S_GAUGE && starts_with S_LIVE p1.
+
 (* operation histories: write_value, read_value, close + MmapedDict(filename) again *)
 Inductive op := Write (k v ts : bytes) | ReadV (k : bytes) | Reopen.
 
@@ -202,7 +219,9 @@ Section Params.
     match o with
     | Write k v ts => write_value h k v ts
     | ReadV k => ensure h k
-    | Reopen => open_ f                                   (* close() has no file effect *)
+    | Reopen =>                                           (* close(), then MmapedDict(filename) on what close() left *)
+        let ce := close_effects h in
+        do f1 <- apply_effects f ce; do he <- open_ f1; Ok (fst he, ce ++ snd he)
     end.
 
   Definition step (w : fstate * handle) (o : op) : res (fstate * handle * list effect) :=
@@ -232,6 +251,53 @@ Section Params.
 
   (* the file a reader sees after the first n effects of the writer's trace *)
   Definition cut (n : nat) (tr : list effect) : res fstate := apply_effects None (firstn n tr).
+
+  (* ---------- one writer, and forked children that inherited its handle ---------- *)
+  (* Own o: the writer's own operation.  Fork: a child process is forked; it holds a copy of the writer's handle as it
+     is at that moment (same descriptor, same mapping) and does nothing yet.  CloseInherited: the oldest such child
+     performs its first metric operation, i.e. calls close() on the copy (with the handle state of ITS fork time,
+     which may be stale by now) - the writer goes on with its own handle afterwards. *)
+  Inductive wop := Own (o : op) | Fork | CloseInherited.
+
+  Definition wstep (w : fstate * handle * list handle) (o : wop)
+    : res (fstate * handle * list handle * list effect) :=
+    let f := fst (fst w) in let h := snd (fst w) in let inh := snd w in
+    match o with
+    | Own o => do s <- step (f, h) o; Ok (fst (fst s), snd (fst s), inh, snd s)
+    | Fork => Ok (f, h, inh ++ [h], [])
+    | CloseInherited =>
+        match inh with
+        | [] => Ok (f, h, [], [])
+        | hb :: r => let ce := close_effects hb in do f' <- apply_effects f ce; Ok (f', h, r, ce)
+        end
+    end.
+
+  Fixpoint wrun_from (w : fstate * handle * list handle) (ops : list wop)
+    : res (fstate * handle * list handle * list effect) :=
+    match ops with
+    | [] => Ok (fst (fst w), snd (fst w), snd w, [])
+    | o :: r =>
+        do s <- wstep w o;
+        do t <- wrun_from (fst (fst (fst s)), snd (fst (fst s)), snd (fst s)) r;
+        Ok (fst (fst (fst t)), snd (fst (fst t)), snd (fst t), snd s ++ snd t)
+    end.
+
+  Definition wrun (ops : list wop) : res (fstate * handle * list handle * list effect) :=
+    do s <- start;
+    do t <- wrun_from (fst (fst s), snd (fst s), []) ops;
+    Ok (fst (fst (fst t)), snd (fst (fst t)), snd (fst t), snd s ++ snd t).
+
+  Definition wtrace (ops : list wop) : res (list effect) := do t <- wrun ops; Ok (snd t).
+
+  (* ---------- the collector's reading phase of one listed file (multiprocess.py, _read_metrics) ---------- *)
+  (* parts = basename.split('_'); typ = parts[0]; p1 = parts[1].  The file may have been removed between the glob and
+     the read (f = None): FileNotFoundError is swallowed exactly for typ == 'gauge' and parts[1].startswith('live')
+     (the files mark_process_dead removes) and re-raised otherwise. *)
+  Definition read_listed (typ p1 : bytes) (f : fstate) : res (list entry) :=
+    match f with
+    | Some b => read_all_from_file b
+    | None => if vanish_tolerated typ p1 then Ok [] else Err OSError
+    end.
 End Params.
 
 (* ---------- specification: a Python dict of the written pairs ---------- *)
@@ -243,6 +309,10 @@ Definition spec_step (acc : list entry) (o : op) : list entry :=
   end.
 Definition spec_from (acc : list entry) (ops : list op) : list entry := fold_left spec_step ops acc.
 Definition spec (ops : list op) : list entry := spec_from [] ops.
+
+(* the writer's own operations of a history with forked children *)
+Definition own_ops (ws : list wop) : list op :=
+  flat_map (fun w => match w with Own o => [o] | _ => [] end) ws.
 
 (* ---------- driver entry points (observations; not used by the theorems' statements) ---------- *)
 Definition obs_world (pg : N) (f : fstate) (h : handle) :=
